@@ -56,44 +56,39 @@ Proof. exact unicast_delivery. Qed.
 Print Assumptions C07_unicast_delivery.
 
 (* ===== 2. memory safety of the matcher ================================================================= *)
-(* full statement (what the property asks): no rule text and no message make the matcher read outside
-   its buffers.  The faithful model does NOT satisfy it (F6). *)
-Definition C07_no_fault_full_statement : Prop :=
-  forall c text r ns s a m skip, parse_rule c text = POk r -> rule_matches ns r s a m skip <> None.
-
-Theorem C07_no_fault_partial : forall ns r s a m skip,
-  no_empty_argpath r -> rule_matches ns r s a m skip <> None.
+(* every computed-index read of the matcher goes through read_heap / read_body (None outside the object).
+   Since commit c577f29 (finding F6 fixed) no rule and no message make any of them fail: *)
+Theorem C07_no_fault : forall ns r s a m skip, rule_matches ns r s a m skip <> None.
 Proof. exact no_fault. Qed.
-Print Assumptions C07_no_fault_partial.
+Print Assumptions C07_no_fault.
 
-Theorem C07_no_fault_refuted : ~ C07_no_fault_full_statement.
-Proof.
-  intros H. destruct (parse_rule 1 T_argpath_empty) as [| |r] eqn:E; try (vm_compute in E; discriminate).
-  apply (H 1 T_argpath_empty r [] None None (M_sig [AStr [120]]) false E).
-  vm_compute in E. inversion E; subst r. vm_compute. reflexivity.
-Qed.
-Print Assumptions C07_no_fault_refuted.
+(* ... and therefore dispatching any message in any state of the matchmaker never faults *)
+Theorem C07_dispatch_total : forall ns mk c m, dispatch ns mk c m <> None.
+Proof. exact dispatch_total. Qed.
+Print Assumptions C07_dispatch_total.
+
+(* the former F6 witness, now evaluated without a fault, and not matching (the empty value does not end in '/') *)
+Example ex_former_F6 :
+  match parse_rule 1 T_argpath_empty with
+  | POk r => rule_matches [] r None None (M_sig [AStr [120]]) false = Some false /\
+             rule_matches [] r None None (M_sig [AStr []]) false = Some true
+  | _ => False
+  end.
+Proof. vm_compute. split; reflexivity. Qed.
 
 (* ===== 3. RemoveMatch ==================================================================================== *)
-(* full statement: rules are equal exactly when they are the same rule *)
-Definition C07_rule_equal_full_statement : Prop := forall a b, rule_equal a b = true <-> a = b.
-
-Theorem C07_rule_equal_partial : forall a b, ns_values_agree a b -> (rule_equal a b = true <-> a = b).
+(* rules are equal exactly when they are the same rule (since commit 5996fca, finding F8 fixed) *)
+Theorem C07_rule_equal : forall a b, rule_equal a b = true <-> a = b.
 Proof. exact rule_equal_eq. Qed.
-Print Assumptions C07_rule_equal_partial.
+Print Assumptions C07_rule_equal.
 
-Theorem C07_rule_equal_refuted : ~ C07_rule_equal_full_statement.
-Proof.
-  intros H.
-  destruct (parse_rule 1 T_pns_x) as [| |x] eqn:Ex; try (vm_compute in Ex; discriminate).
-  destruct (parse_rule 1 T_pns_y) as [| |y] eqn:Ey; try (vm_compute in Ey; discriminate).
-  vm_compute in Ex, Ey. inversion Ex; subst x. inversion Ey; subst y.
-  match goal with |- _ => pose proof (proj1 (H _ _) (eq_refl : rule_equal
-     (mkRule 1 None None None None None (Some (true, [47;120])) false [])
-     (mkRule 1 None None None None None (Some (true, [47;121])) false []) = true)) as F end.
-  discriminate F.
-Qed.
-Print Assumptions C07_rule_equal_refuted.
+(* the former F8 witness: rules that differ only in the path_namespace value are different *)
+Example ex_former_F8 :
+  match parse_rule 1 T_pns_x, parse_rule 1 T_pns_y with
+  | POk x, POk y => rule_equal x y = false /\ rule_equal x x = true
+  | _, _ => False
+  end.
+Proof. vm_compute. split; reflexivity. Qed.
 
 (* removal by value: exactly one rule goes — the newest rule_equal one; None iff there is none *)
 Theorem C07_remove : forall m v,
@@ -218,11 +213,10 @@ Proof. split; vm_compute; [discriminate | reflexivity]. Qed.
 Print Assumptions C07_parse_refuted_unique_name.
 
 (* ===== non-vacuity =================================================================================================== *)
-Example ex_parse_ok : match parse_rule 1 T_good with POk r => rule_ok r /\ no_empty_argpath r | _ => False end.
+Example ex_parse_ok : match parse_rule 1 T_good with POk r => rule_ok r | _ => False end.
 Proof.
   destruct (parse_rule 1 T_good) as [| |r] eqn:E; try (vm_compute in E; discriminate).
-  split; [exact (proj1 (parse_rule_ok _ _ _ E))|].
-  vm_compute in E. inversion E; subst r. intros v H. simpl in H. destruct H as [H|[]]. inversion H. discriminate.
+  exact (proj1 (parse_rule_ok _ _ _ E)).
 Qed.
 Example ex_spec_agrees : match parse_rule 1 T_good, spec_parse 1 T_good with POk r, SPOk sr => srule_eqb (abs_rule r) sr = true | _, _ => False end.
 Proof. vm_compute. reflexivity. Qed.
